@@ -192,10 +192,16 @@ TStop ==
 \* the file is cut to n bytes (cuts of one scenario come in descending order)
 TTruncate ==
   /\ IsEv("Truncate")
-  /\ wr \in {"closed", "dead"} /\ Ev.n \in 0..fileLen
-  /\ file' = CutFile(file, Ev.n) /\ fileLen' = Ev.n /\ truncated' = TRUE /\ wr' = "dead"
+  /\ wr \in {"closed", "dead"}
+  \* the driver cuts the REAL file; if that is longer than what the model says was written, the
+  \* writer put bytes on disk the format does not account for (reported, not blocking)
+  /\ LET n == IF Ev.n > fileLen THEN fileLen ELSE Ev.n IN
+     /\ file' = CutFile(file, n) /\ fileLen' = n
+  /\ truncated' = TRUE /\ wr' = "dead"
+  /\ viol' = viol \o (IF Ev.n > fileLen
+                      THEN V(<<"C12">>, "FileLongerThanWritten", <<sc, Ev.n, fileLen>>, 0) ELSE <<>>)
   /\ Step("Truncate")
-  /\ UNCHANGED <<woff, cur, appended, base, reopens, stops, viol, runInfo, sc>>
+  /\ UNCHANGED <<woff, cur, appended, base, reopens, stops, runInfo, sc>>
 
 ---------------------------------------------------------------------------
 (* observations *)
